@@ -509,7 +509,8 @@ static bool parse_ops(const std::vector<std::vector<std::string>> &ops, size_t n
       p.kind  = 0;
       p.attrs = op[1];
       AttrList probe;
-      if (!parse_attrs(op[1], probe, true)) return false;
+      // "~" / "~c": the overloads that take no attributes at all (without / with a context)
+      if (op[1] != "~" && op[1] != "~c" && !parse_attrs(op[1], probe, true)) return false;
       if (!parse_nat(op[2], static_cast<__int128>(1) << 40, v)) return false;
       p.value = static_cast<long long>(v);
     }
@@ -537,13 +538,17 @@ static bool parse_ops(const std::vector<std::vector<std::string>> &ops, size_t n
   return true;
 }
 
-template <class REC, class COL>
-static std::string drive(const std::vector<ParsedOp> &ops, bool guarded, REC rec, COL col)
+template <class REC, class REC0, class COL>
+static std::string drive(const std::vector<ParsedOp> &ops, bool guarded, REC rec, REC0 rec0, COL col)
 {
   std::vector<std::string> outs;
   for (auto &op : ops)
   {
-    if (op.kind == 0)
+    if (op.kind == 0 && (op.attrs == "~" || op.attrs == "~c"))
+    {
+      rec0(op.value, op.attrs == "~c");
+    }
+    else if (op.kind == 0)
     {
       AttrList a;
       parse_attrs(op.attrs, a, guarded);
@@ -600,6 +605,7 @@ static std::string run_store(const std::vector<std::string> &t)
   return drive(
       ops, t[1] == "storeg",
       [&](long long v, const AttrList &a) { storage.RecordLong(v, a, opentelemetry::context::Context{}); },
+      [&](long long v, bool) { storage.RecordLong(v, opentelemetry::context::Context{}); },
       [&](size_t r) {
         bool seen = false;
         Points pts;
@@ -641,6 +647,10 @@ static std::string run_sdk(const std::vector<std::string> &t)
   return drive(
       ops, t[1] == "sdkg",
       [&](long long v, const AttrList &a) { counter->Add(static_cast<uint64_t>(v), a, opentelemetry::context::Context{}); },
+      [&](long long v, bool with_ctx) {
+        if (with_ctx) counter->Add(static_cast<uint64_t>(v), opentelemetry::context::Context{});
+        else counter->Add(static_cast<uint64_t>(v));
+      },
       [&](size_t r) {
         bool seen = false;
         Points pts;
